@@ -574,6 +574,123 @@ def rule_r8(chk, p, t):
     r.guard(ag.qualname, f4)
 
 
+_TRUNCATING = {"int", "floor", "trunc", "fix", "ceil", "floor_divide", "np_floor", "divmod"}
+_UNIT_SECONDS = {"days": 86400, "hours": 3600, "minutes": 60, "seconds": 1, "milliseconds": Fraction(1, 1000), "microseconds": Fraction(1, 1000000), "weeks": 604800}
+
+
+def _lossy_ops(e):
+    out = []
+    for n in ast.walk(e):
+        if isinstance(n, ast.Call) and call_name(n) in _TRUNCATING:
+            out.append(f"{call_name(n)}()")
+        elif isinstance(n, ast.BinOp) and isinstance(n.op, (ast.FloorDiv, ast.Mod)):
+            out.append("//" if isinstance(n.op, ast.FloorDiv) else "%")
+    return out
+
+
+def rule_r9(chk, p, t):
+    r = chk.rule(
+        "C05.R9",
+        "the requested duration reaches the target date whole",
+        3,
+        "runResonaate (the function behind `resonaate -t HOURS`) turns the requested number of hours into the stop "
+        "date: the duration handed to getTargetJulianDate is a timedelta of exactly sim_time_hours hours (in whatever "
+        "unit it is spelled: the keyword's unit times its value equals 3600 * sim_time_hours as a rational function) "
+        "with no truncating operation (int, floor, trunc, ceil, //, %) on the way - a float product such as 2.05 * 3600 = "
+        "7379.999999999999 truncated to whole seconds loses a second and with it a whole step; the start is the "
+        "scenario clock's start date, the result is what propagateTo receives, and main() forwards the parsed "
+        "`--time` value (a float option) unchanged",
+        "the microsecond rounding that timedelta itself performs",
+    )
+    from rsa.ratfun import NotEvaluable, ratfun, rat_equal
+
+    fn = p.func("resonaate.runResonaate")
+
+    def one():
+        calls = find_calls(fn.node, "getTargetJulianDate")
+        require(len(calls) == 1, "runResonaate: expected exactly one getTargetJulianDate call", fn.node)
+        c = calls[0]
+        require(len(c.args) == 2 and not c.keywords, "getTargetJulianDate is not called with (start, duration)", c)
+        start, dur = (inline_locals(fn, a) for a in c.args)
+        hours = next((q for q in fn.params if "hour" in q), None)
+        require(hours is not None, "runResonaate has no `hours` parameter", fn.node)
+        if not unparse(start).endswith("clock.julian_date_start"):
+            r.violation(fn.qualname, f"start:{unparse(start)}", f"the stop date is counted from `{unparse(start)}`, not from the scenario clock's start date", fn.loc(c))
+        else:
+            r.ok(fn.qualname + ":start", unparse(start), fn.loc(c))
+        lossy = _lossy_ops(dur)
+        if lossy:
+            r.violation(
+                fn.qualname,
+                "duration-truncated:" + ",".join(sorted(set(lossy))),
+                f"the requested duration reaches getTargetJulianDate as `{unparse(dur)}`: {', '.join(sorted(set(lossy)))} truncates it "
+                "(a float product just below a whole second loses that second, and the run stops one step short)",
+                fn.loc(c),
+            )
+        elif isinstance(dur, ast.Call) and call_name(dur) == "timedelta" and not dur.args and dur.keywords and all(k.arg in _UNIT_SECONDS for k in dur.keywords):
+            try:
+                total = None
+                for k in dur.keywords:
+                    term = ratfun(ast.BinOp(left=k.value, op=ast.Mult(), right=ast.Constant(value=1)))
+                    u = _UNIT_SECONDS[k.arg]
+                    term = ({m: v * u for m, v in term[0].items()}, term[1])
+                    total = term if total is None else ratfun_add(total, term)
+                want = ratfun(ast.parse(f"3600 * {hours}", mode="eval").body)
+                if rat_equal(total, want):
+                    r.ok(fn.qualname + ":duration", f"{unparse(dur)} == {hours} hours", fn.loc(c))
+                else:
+                    r.violation(fn.qualname, f"duration-value:{unparse(dur)}", f"the duration handed to getTargetJulianDate is `{unparse(dur)}`, which is not {hours} hours", fn.loc(c))
+            except NotEvaluable as e:
+                r.undecided(fn.qualname + ":duration", f"duration `{unparse(dur)}` not evaluable: {e}", fn.loc(c))
+        else:
+            r.undecided(fn.qualname + ":duration", f"duration `{unparse(dur)}` is not a timedelta built from keyword units", fn.loc(c))
+        # the result is what propagateTo receives
+        pcs = find_calls(fn.node, "propagateTo")
+        require(len(pcs) == 1 and pcs[0].args, "runResonaate: expected one propagateTo(target) call", fn.node)
+        tgt = inline_locals(fn, pcs[0].args[0])
+        if isinstance(tgt, ast.Call) and call_name(tgt) == "getTargetJulianDate":
+            r.ok(fn.qualname + ":target", "propagateTo(getTargetJulianDate(start, duration))", fn.loc(pcs[0]))
+        else:
+            r.violation(fn.qualname, f"target:{unparse(tgt)[:60]}", f"propagateTo receives `{unparse(tgt)[:80]}`, not the target date computed from the requested duration", fn.loc(pcs[0]))
+
+    r.guard(fn.qualname, one)
+    mn = p.func("resonaate.main")
+
+    def two():
+        calls = find_calls(mn.node, "runResonaate")
+        require(len(calls) == 1, "main: expected one runResonaate call", mn.node)
+        c = calls[0]
+        hours = next((q for q in fn.params if "hour" in q), None)
+        arg = next((k.value for k in c.keywords if k.arg == hours), None)
+        if arg is None and len(c.args) > fn.params.index(hours):
+            arg = c.args[fn.params.index(hours)]
+        require(arg is not None, "main does not pass the simulated hours", c)
+        e = inline_locals(mn, arg)
+        if _lossy_ops(e) or any(isinstance(n, ast.Call) and call_name(n) in ("round", "around", "rint") for n in ast.walk(e)):
+            r.violation(mn.qualname, f"hours-forwarded:{unparse(e)}", f"main forwards the requested hours as `{unparse(e)}`: the command-line value is rounded or truncated first", mn.loc(c))
+        elif isinstance(e, ast.Attribute):
+            # the option that fills this attribute parses a float
+            dest = e.attr
+            cli = p.func("resonaate.common.cli.getCommandLineParser")
+            opt = [a for a in find_calls(cli.node, "add_argument") if any(k.arg == "dest" and isinstance(k.value, ast.Constant) and k.value.value == dest for k in a.keywords)]
+            require(len(opt) == 1, f"no single add_argument with dest={dest!r}", cli.node)
+            ty = next((k.value for k in opt[0].keywords if k.arg == "type"), None)
+            if ty is not None and unparse(ty) == "float":
+                r.ok(mn.qualname + ":hours", f"--time parsed as float, forwarded as `{unparse(e)}`", mn.loc(c))
+            else:
+                r.violation(cli.qualname, f"time-type:{unparse(ty) if ty is not None else None}", f"the --time option is parsed with type `{unparse(ty) if ty is not None else 'str'}`: fractional hours cannot be requested as documented", cli.loc(opt[0]))
+        else:
+            r.undecided(mn.qualname + ":hours", f"hours argument `{unparse(e)}` not recognised", mn.loc(c))
+
+    r.guard(mn.qualname, two)
+
+
+def ratfun_add(a, b):
+    from rsa.ratfun import p_add, p_mul
+
+    return (p_add(p_mul(a[0], b[1]), p_mul(b[0], a[1])), p_mul(a[1], b[1]))
+
+
 def run(chk, p, t):
     chk.explanation = (
         "Static decision of structural necessary conditions of C05: (R1) the float seconds of a Julian date are "
@@ -585,7 +702,7 @@ def run(chk, p, t):
         "algorithm over 1901-2099 (float arithmetic)."
     )
     chk.assumptions += ["round/around/rint round to nearest; int/floor/trunc truncate; timedelta normalises (carries) seconds"]
-    for fn in (rule_r1, rule_r2, rule_r3, rule_r4, rule_r5, rule_r6, rule_r7, rule_r8):
+    for fn in (rule_r1, rule_r2, rule_r3, rule_r4, rule_r5, rule_r6, rule_r7, rule_r8, rule_r9):
         rid = "C05.R" + fn.__name__[-1]
         if not chk.wants(rid):
             continue
